@@ -172,7 +172,9 @@ fn lr_result(input: &str, r: rustemo::Result<TN>) -> String {
     }
 }
 
-pub fn run_lr_custom(input: &str, partial: bool, mode: usize, seed: usize) -> String {
+pub static PREV_DONE: std::sync::atomic::AtomicBool = std::sync::atomic::AtomicBool::new(true);
+
+pub fn run_lr_custom(input: &str, partial: bool, mode: usize, seed: usize, prev: Option<&str>) -> String {
     let t = tab();
     let p: LRParser<LCtx, St, Pk, Tk, Nk, Def, _, TreeBuilder<str, Pk, Tk>, str> = LRParser::new(
         &DEF,
@@ -182,10 +184,14 @@ pub fn run_lr_custom(input: &str, partial: bool, mode: usize, seed: usize) -> St
         CustomLexer { mode, seed },
         TreeBuilder::new(),
     );
+    if let Some(h) = prev {
+        let _ = p.parse(h);
+        PREV_DONE.store(true, std::sync::atomic::Ordering::SeqCst);
+    }
     lr_result(input, p.parse(input))
 }
 
-pub fn run_lr(input: &str, partial: bool) -> String {
+pub fn run_lr(input: &str, partial: bool, prev: Option<&str>) -> String {
     let t = tab();
     let lexer: StringLexer<LCtx, St, Tk, TR, NREC> = StringLexer::new(t.skip_ws && t.layout.is_none(), recs());
     let p: LRParser<LCtx, St, Pk, Tk, Nk, Def, _, TreeBuilder<str, Pk, Tk>, str> = LRParser::new(
@@ -196,6 +202,10 @@ pub fn run_lr(input: &str, partial: bool) -> String {
         lexer,
         TreeBuilder::new(),
     );
+    if let Some(h) = prev {
+        let _ = p.parse(h);
+        PREV_DONE.store(true, std::sync::atomic::Ordering::SeqCst);
+    }
     match p.parse(input) {
         Ok(n) => {
             let mut s = String::from("ok ");
@@ -207,11 +217,15 @@ pub fn run_lr(input: &str, partial: bool) -> String {
 }
 
 /// GLR: `ok <solutions> <ntrees printed> <tree>;<tree>...  iter=<same?> beyond=<none?>`
-pub fn run_glr(input: &str, partial: bool, max_trees: usize) -> String {
+pub fn run_glr(input: &str, partial: bool, max_trees: usize, prev: Option<&str>) -> String {
     let t = tab();
     let lexer: StringLexer<GCtx, St, Tk, TR, NREC> = StringLexer::new(t.skip_ws && t.layout.is_none(), recs());
     let g: GlrParser<St, _, Pk, Tk, Nk, Def, str, TreeBuilder<str, Pk, Tk>> =
         GlrParser::new(&DEF, partial, t.layout.is_some(), lexer);
+    if let Some(h) = prev {
+        let _ = g.parse(h);
+        PREV_DONE.store(true, std::sync::atomic::Ordering::SeqCst);
+    }
     match g.parse(input) {
         Ok(f) => {
             if max_trees == 99999 {
